@@ -526,12 +526,12 @@ def run(ctx):
     conc = [("bits", "bits", 12, 12), ("bits", "bits", 24, 12), ("bits", "bits", 12, 24), ("bits", "new_wallet", 24, 24), ("new_wallet", "bits", 15, 18),
             ("from_entropy_bits", "from_entropy_bits", 21, 21), ("new_wallet", "new_wallet", 12, 12), ("bits", "from_entropy_bits", 18, 15)]
     for ci, (aa, ab, la, lb) in enumerate(conc * (1 if not ctx.thorough else 6)):
-        if ctx.mine(ci):
+        if ctx.mine_once(ci):
             judge_concurrent(ctx, {"api_a": aa, "api_b": ab, "words_a": la, "words_b": lb, "stride": 1 if aa == "bits" or ctx.thorough else 3,
                                    "offset": rnd.randrange(0, 3)})
     fault_cells = [(e, st) for e in ("NotImplementedError", "OSError") for st in (True, False)]
     for fi, (e, st) in enumerate(fault_cells):
-        if ctx.mine(fi + 1):
+        if ctx.mine_once(fi + 1):
             for rep in range(1 if not ctx.thorough else 3):
                 judge_import_fault(ctx, {"exc": e, "still_failing": st, "seed": rnd.randrange(0, 1 << 30)})
     for j in range(ctx.scale(120, 8000)):
